@@ -4,6 +4,7 @@ import (
 	"fmt"
 	"go/token"
 	"go/types"
+	"strings"
 
 	"golang.org/x/tools/go/ssa"
 )
@@ -180,6 +181,37 @@ func runC02(w *World, r *Report) {
 	}
 
 	// ---- cycle gate
+	// ---- what a data predecessor reports is kept: the store into Values is reached for every reported key that is a
+	// data predecessor of a channel that is not skipped — whatever the bookkeeping flag of that predecessor says (a skip
+	// report sets the same flag to mean "do not wait for it")
+	r.Rule("C02.reported-values-kept", "dagChannel.reportValues stores every value of a declared data predecessor (guards: the loop, the comma-ok of the DataPredecessors lookup, !Skipped — nothing else)", 1)
+	{
+		rv := w.Fn("compose", "dagChannel.reportValues")
+		fValues := w.Field("compose", "dagChannel", "Values")
+		loopCond := guardIsLoopCond(rv)
+		n := 0
+		instrs(rv, func(in ssa.Instruction) {
+			mu, ok := in.(*ssa.MapUpdate)
+			if !ok || !isLoadOfField(mu.Map, fValues) {
+				return
+			}
+			n++
+			isDeclared := func(g guard) bool {
+				e, ok := g.cond.(*ssa.Extract)
+				if !ok || e.Index != 1 {
+					return false
+				}
+				lk, ok := e.Tuple.(*ssa.Lookup)
+				return ok && lk.CommaOk && isLoadOfField(lk.X, fDP) && g.pol
+			}
+			extra := extraGuards(mu.Block(), loopCond, isDeclared, guardOnField(fSkipped))
+			r.Check(len(extra) == 0, "C02.reported-values-kept", fmt.Sprintf("reportValues: store into Values #%d", n), mu.Pos(), "reached for every declared data predecessor of a live channel", "the reported value is kept only when "+strings.Join(extra, " && ")+": in the documented 'read data across a branch' pattern (a branch start node's output read through WithNoDirectDependency) the skip report of the start node's own branch arrives first and the node's output, delivered in the same step, is thrown away — the reader runs (another branch routes to it) with that input missing although the node ran")
+		})
+		if n == 0 {
+			r.Fail("C02.reported-values-kept", "reportValues: store into Values", rv.Pos(), "no store into dagChannel.Values found")
+		}
+	}
+
 	r.Rule("C02.cycle-gate", "runner.dag is set only after validateDAG (error blocks compile) and exactly when the DAG channel builder is selected", 2)
 	gcompile := w.Fn("compose", "graph.compile")
 	vdag := w.Fn("compose", "validateDAG")
@@ -247,6 +279,22 @@ func runC02(w *World, r *Report) {
 		}, avoid: func(in ssa.Instruction) bool { return isCallTo(in, rb) }}.exists()
 		r.Check(!skip, "C02.skip-report", "calculateBranch: reportBranch before every successful return", cb.Pos(), "no nil-error return skips reportBranch", "branch outcomes are not always reported (unselected targets keep waiting forever / run when they should be skipped): "+wit)
 		branchPruneCheck(w, r, "C02.skip-report")
+		// every branch contributes its unselected end nodes, whatever it selected (an empty selection skips them all):
+		// no iteration of the loop over the node's branches goes on to the next branch without scanning branch.endNodes
+		fEnd := w.Field("compose", "GraphBranch", "endNodes")
+		nr := 0
+		instrs(cb, func(in ssa.Instruction) {
+			rg, ok := in.(*ssa.Range)
+			if !ok || !isLoadOfField(rg.X, fEnd) {
+				return
+			}
+			nr++
+			skips, wit := iterationSkips2(cb, rg)
+			r.Check(!skips, "C02.skip-report", "calculateBranch: every branch's end nodes are scanned for unselected ones", rg.Pos(), "no iteration over the node's branches bypasses the scan of branch.endNodes", "a branch can be passed over without its end nodes being looked at ("+wit+"): when a multi-way branch selects nothing, none of its targets is reported as skipped — their control predecessor stays 'waiting' for ever, the skip never propagates and a join / END on a live path never fires ('no tasks to execute')")
+		})
+		if nr == 0 {
+			r.Fail("C02.skip-report", "calculateBranch: scan of branch.endNodes", cb.Pos(), "no range over GraphBranch.endNodes found")
+		}
 	}
 	{
 		// reportBranch: work-list loop re-reads len(nKeys) where nKeys grows inside the loop, over c.successors
